@@ -10,6 +10,7 @@ import sys, os, json, math, pickle
 from fractions import Fraction
 from vlib.common import Check, VERIF, COQ, SRC
 import c12_translate as T
+import c13_translate as TP
 
 TOL = 1e-7
 
@@ -308,9 +309,13 @@ def main(argv):
     try:
         tr = T.translate_integrator(srcfile)
         T.write_if_changed(os.path.join(COQ, "Gen", "GenIntegrator.v"), tr["coq"])
+        # Props/C12.v also states the result for the pulses pulse.py ships (C12_shipped_pulses): regenerate GenPulse.v too
+        trp = TP.translate_pulse(os.path.join(SRC, "quantum_gates", "_gates", "pulse.py"))
+        T.write_if_changed(os.path.join(COQ, "Gen", "GenPulse.v"), trp["coq"])
     except (T.TranslateError, SyntaxError) as e:
+        tr = None
         terr = "%s: %s" % (type(e).__name__, e)
-    ck.oblige("translate integrator.py -> Gen/GenIntegrator.v (fail closed)", tr is not None)
+    ck.oblige("translate integrator.py -> Gen/GenIntegrator.v and pulse.py -> Gen/GenPulse.v (fail closed)", tr is not None)
     ck.extra["source_sha256"] = tr["sha256"] if tr else None
 
     import quantum_gates._gates.integrator as ig
@@ -419,7 +424,7 @@ def main(argv):
             ck.report("oracle:" + fam, "Integrator(%s).integrate(%r, %r, %r): %s" % (det.get("pulse"), det.get("key"), det.get("theta"), det.get("a"), why), det, True)
     else:
         if tr is None:
-            ck.report("translate", "integrator.py is outside the translator's vocabulary (fail closed): %s; the direct oracle passes on every explored input" % terr,
+            ck.report("translate", "integrator.py / pulse.py is outside the translator's vocabulary (fail closed): %s; the direct oracle passes on every explored input" % terr,
                       {"theorem": "translation of integrator.py", "error": terr}, False)
         elif mirror_bad:
             ck.report("translator-validation", "emitted model and real objects differ: %s %s; the direct oracle passes on every explored input" % mirror_bad[0],
